@@ -170,6 +170,24 @@ func (e *env) observe(p string, full bool) (o obs, agree bool) {
 	return o, agree
 }
 
+// observeParse: validator and NewRoute only (no registration: used for very long patterns)
+func (e *env) observeParse(p string) (o obs, agree bool) {
+	defer func() {
+		if r := recover(); r != nil {
+			o, agree = obs{kind: 0}, true
+		}
+	}()
+	n, eh, err := e.r.VerifParseRoute(p)
+	if err != nil {
+		o = obs{kind: kindOf(err)}
+	} else {
+		o = obs{kind: -1, n: n, eh: eh}
+	}
+	rte, err2 := e.r.NewRoute(p, nop)
+	agree = sameErr(err, err2) && (err2 != nil || rte.Pattern() == p)
+	return o, agree
+}
+
 // ---------- tokens (harness-side helper used to cut keys and build requests) ----------
 
 type tok struct {
@@ -492,14 +510,35 @@ func serveAlone(p string, vals []string) (ro routeObs) {
 var paramVals = []string{"a", "b", "ab", "x1", "v-w"}
 var catchVals = []string{"a", "b", "a/b", "ab/c/d", "x1/y"}
 
-func pickVals(rnd *hx.Rand, p string) []string {
+// values made of the pattern syntax itself: a wildcard value is data, whatever its bytes
+// (no '/' in a parameter value, no '.' either in a hostname one)
+var hostileParamVals = []string{"{x", "{", "*y", "*", "{x}", "*{x}", "a{b", "a*", "}", "{{", "{a}{b}"}
+var hostileCatchVals = []string{"{x", "*y", "{x}/b", "a/{b}/c", "*{c}", "a/*", "{", "x{y/z*"}
+
+// pickVals chooses one value per wildcard; hostile = 0 ordinary, 1 hostile values,
+// 2 the wildcard's own text ("{name}" / "*{name}") as its value
+func pickVals(rnd *hx.Rand, p string, hostile int) []string {
 	var vs []string
 	for _, t := range tokenize(p) {
 		switch t.kind {
 		case 'p':
-			vs = append(vs, hx.Pick(rnd, paramVals))
+			switch {
+			case hostile == 2:
+				vs = append(vs, "{"+strings.NewReplacer("/", "", ".", "").Replace(t.text)+"}")
+			case hostile == 1 || rnd.Pct(15):
+				vs = append(vs, hx.Pick(rnd, hostileParamVals))
+			default:
+				vs = append(vs, hx.Pick(rnd, paramVals))
+			}
 		case 'c':
-			vs = append(vs, hx.Pick(rnd, catchVals))
+			switch {
+			case hostile == 2:
+				vs = append(vs, "*{"+t.text+"}")
+			case hostile == 1 || rnd.Pct(15):
+				vs = append(vs, hx.Pick(rnd, hostileCatchVals))
+			default:
+				vs = append(vs, hx.Pick(rnd, catchVals))
+			}
 		}
 	}
 	return vs
@@ -920,6 +959,51 @@ func main() {
 		addPat1(string(b), hx.Pick(rnd, rndLimits), hx.Pick(rnd, rndLimits), "arbitrary-bytes")
 	}
 
+	// ---- the parameter-count limit at its maximum: patterns with 65535..131072 wildcards ----
+	// (too long to send to or run through the Coq model: the harness reports its own wildcard count,
+	// Corr.CCount checks accepted -> n = count <= limit, rejected -> count > limit with ErrTooManyParams)
+	{
+		def, err := fox.New()
+		hx.Fatal(err)
+		counted := []struct {
+			name string
+			e    *env
+		}{
+			{"default", &env{r: def, mp: 65535, mk: 65535}},
+			{"WithMaxRouteParams(65535)", getEnv(65535, 65535)},
+			{"WithMaxRouteParams(2)", getEnv(2, 65535)},
+			{"WithMaxRouteParams(0)", getEnv(0, 65535)},
+		}
+		units := []struct {
+			unit  string
+			wilds int
+		}{{"/{a}", 1}, {"/x{ab}", 1}, {"/*{c}/s", 1}, {"/{a}/*{b}", 2}}
+		reps := []int{65535, 65536, 65537, 65538, 65539, 131072}
+		if tier == "thorough" {
+			reps = append(reps, 65534, 131073, 196608, 262144)
+		}
+		for _, ce := range counted {
+			for _, u := range units {
+				for _, k := range reps {
+					k = k / u.wilds
+					for _, kk := range []int{k, k + 1} {
+						if u.wilds == 1 && kk != k {
+							continue
+						}
+						p := strings.Repeat(u.unit, kk)
+						o, agree := ce.e.observeParse(p)
+						wilds := kk * u.wilds
+						col.add(fmt.Sprintf("CCount %s %s %s %s", hx.N(uint64(wilds)), hx.N(uint64(ce.e.mp)), o.coq(), hx.Bool(agree)),
+							fmt.Sprintf("pattern %s repeated %d times (%d wildcards, %d bytes) on router %s (maxParams=%d) -> %v paths-agree=%v", hx.Quote(u.unit), kk, wilds, len(p), ce.name, ce.e.mp, o, agree), 1)
+						evals++
+						nontriv++
+						st.Count("kind:wildcard-count-boundary")
+					}
+				}
+			}
+		}
+	}
+
 	// ---- parseWildcard on keys cut at token boundaries; routable clause ----
 	seenKey := map[string]bool{}
 	nroute := 1
@@ -949,8 +1033,19 @@ func main() {
 			}
 		}
 		seenVals := map[string]bool{}
-		for c := 0; c < nroute; c++ {
-			vals := pickVals(rnd, p)
+		for c := 0; c < nroute+2; c++ {
+			// the last two rounds use values made of pattern syntax ('{', '*', the wildcard's own text)
+			hostile := 0
+			if c >= nroute {
+				hostile = c - nroute + 1
+			}
+			vals := pickVals(rnd, p, hostile)
+			if hostile > 0 {
+				if len(vals) == 0 {
+					continue
+				}
+				st.Count("kind:route-alone-syntax-values")
+			}
 			k := strings.Join(vals, "\x00")
 			if seenVals[k] {
 				continue
